@@ -7,17 +7,62 @@ def _x6(sol):
     return [int(round(v * 1000000)) for v in sol]
 
 
+BIG = 1000000
+
+
+def _b(v):
+    if v == float("inf"):
+        return BIG
+    return int(round(v)) if abs(v - round(v)) < 1e-9 and abs(v) < BIG else -BIG     # -BIG marks a non-integral bound
+
+
+def _o6(v):
+    if not isinstance(v, (int, float)) or not math.isfinite(v):
+        return 1000000000
+    return max(-1000000000, min(1000000000, int(round(float(v) * 1000000))))
+
+
+def _conv(ev):
+    """hook event -> JSON record for MilpTrace (integers only)"""
+    k = ev["e"]
+    if k == "milp_incumbent":
+        return {"e": k, "src": ev["src"], "x": [_o6(v) for v in ev["x"]], "obj6": _o6(ev["obj"])}
+    if k == "milp_open_root":
+        return {"e": k, "lower": [_b(v) for v in ev["lower"]], "upper": [_b(v) for v in ev["upper"]]}
+    if k == "milp_node":
+        r = {"e": k, "act": ev["act"], "lower": [_b(v) for v in ev["lower"]], "upper": [_b(v) for v in ev["upper"]]}
+        if ev["act"] == "integral":
+            r["x"] = [_o6(v) for v in ev["x"]]
+            r["obj6"] = _o6(ev["obj"])
+        if ev["act"] == "branch":
+            r["var"] = ev["var"] + 1
+            r["val6"] = _o6(ev["val"])
+            r["left_upper"] = [_b(v) for v in ev["left_upper"]]
+            r["right_lower"] = [_b(v) for v in ev["right_lower"]]
+        return r
+    if k == "milp_root_integral":
+        return {"e": k, "src": "root", "x": [_o6(v) for v in ev["x"]], "obj6": _o6(ev["obj"])}
+    if k == "milp_tighten_binary":
+        return {"e": k}
+    return None
+
+
 def run_milp(case):
+    """every configuration is one call; its trace is: start, the branch-and-bound events of the call (hooks), ret"""
+    from solvor import _verif
     from solvor.milp import solve_milp
     A, b, c, ints = case["A"], case["b"], case["c"], case["ints"]
     n, m = len(c), len(b)
     events = []
+    tighten = False
     for cfg in case["configs"]:
         kw = dict(cfg)
         minimize = kw.pop("minimize")
         ws = kw.pop("warm", None)
         if ws is not None:
             kw["warm_start"] = ws
+        events.append({"e": "start", "minimize": minimize})
+        _verif.start()
         try:
             r = solve_milp(list(map(float, c)) if case.get("floats") else list(c), [list(map(float, row)) if case.get("floats") else list(row) for row in A],
                            list(b), [j - 1 for j in ints], minimize=minimize, **kw)
@@ -30,10 +75,18 @@ def run_milp(case):
                     ev["x"] = _x6(r.solution)
                     ev["obj6"] = int(round(float(r.objective) * 1000000))
                     ev["sols"] = [_x6(s) for s in (r.solutions or ())]
-            events.append(ev)
         except Exception as ex:  # noqa: BLE001
-            events.append({"e": "raise", "what": type(ex).__name__})
-    return {"A": A, "b": b, "c": c, "n": n, "m": m, "ints": ints, "cv": case["cv"], "ub": case["ub"], "events": events, "input": case}
+            ev = {"e": "raise", "what": type(ex).__name__}
+        hooked, dropped = _verif.stop()
+        if not dropped and len(hooked) <= 400:
+            for h in hooked:
+                tighten = tighten or h["e"] == "milp_tighten_binary"
+                cvt = _conv(h)
+                if cvt is not None:
+                    events.append(cvt)
+        events.append(ev)
+    return {"A": A, "b": b, "c": c, "n": n, "m": m, "ints": ints, "cv": case["cv"], "ub": case["ub"], "events": events,
+            "tighten": tighten, "input": case}
 
 
 def gen(rng):
@@ -137,15 +190,12 @@ def gen_nearmiss(rng):
 def run_milp_bulk(case):
     """Coverage-directed generation: many near-miss instances; executions in which the binary-tightening action fires (rare
     on this family) are all kept, the rest is sampled.  Only kept executions go to TLC."""
-    from solvor import _verif
     rng = random.Random(case["seed"])
     kept, cov = [], {"instances": 0, "tighten_binary_fired": 0, "sampled": 0}
     for _ in range(case["count"]):
         c = gen_nearmiss(rng)
-        _verif.start()
         tr = run_milp(c)
-        events, _ = _verif.stop()
-        fired = any(e.get("e") == "milp_tighten_binary" for e in events)
+        fired = tr.pop("tighten")
         cov["instances"] += 1
         cov["tighten_binary_fired"] += fired
         if fired or rng.random() < 0.03:
